@@ -1,4 +1,484 @@
 import OtelVerif.Model.C13
-/-! C13 property theorems (stub) -/
+/-!
+# C13 — configuration loading is faithful and strict
+
+Property theorems only.
+
+* `C13_validate_complete` — the validation walk reports exactly the failing `Validate()`s reachable
+  from the root, each with its path; a parent's validity is irrelevant.
+* `C13_refs`, `C13_shape`, `C13_refs_names_entry` — `Config.Validate`/`PipelineConfig.Validate` accept
+  exactly the configurations without dangling references, id clashes, empty or duplicated pipeline
+  parts, and every error names an offending entry.
+* `C13_strict` — a key that no field accepts, at any depth (through fields, pointers, slice elements,
+  map values), makes strict decoding fail.
+* Faithfulness of the typed and of the effective configuration is per-field behaviour of custom
+  `Unmarshal`/`MarshalText` methods: **not** a theorem here, covered by the differential only
+  (partial); its two known counterexamples on the pinned tree are replayed by the harness
+  (`C13/effective/…`, `C13/queuebatch/…`).
+-/
 namespace OtelVerif.C13
+
+/-! ## (a) validation walk -/
+
+theorem mem_pre {seg : String} {l : List (Path × Nat)} {p : Path} {n : Nat} :
+    (p, n) ∈ pre seg l ↔ ∃ q, p = seg :: q ∧ (q, n) ∈ l := by
+  unfold pre
+  simp only [List.mem_map, Prod.mk.injEq]
+  constructor
+  · rintro ⟨⟨q, m⟩, hm, rfl, rfl⟩; exact ⟨q, rfl, hm⟩
+  · rintro ⟨q, rfl, hm⟩; exact ⟨(q, n), hm, rfl, rfl⟩
+
+theorem mem_own {e : Option Nat} {p : Path} {n : Nat} : (p, n) ∈ own e ↔ p = [] ∧ e = some n := by
+  cases e with
+  | none => simp [own]
+  | some m => simp [own, eq_comm]
+
+mutual
+theorem validate_iff : ∀ (t : VT) (p : Path) (n : Nat), (p, n) ∈ validate t ↔ Fails t p n
+  | .leaf e, p, n => by
+    simp only [validate, mem_own]
+    constructor
+    · rintro ⟨rfl, rfl⟩; exact .leaf
+    · intro h; cases h; exact ⟨rfl, rfl⟩
+  | .nilv, p, n => by
+    simp only [validate, List.not_mem_nil, false_iff]
+    intro h; cases h
+  | .ptr v, p, n => by
+    simp only [validate, validate_iff v p n]
+    constructor
+    · exact .ptr
+    · intro h; cases h; assumption
+  | .struct e fs, p, n => by
+    simp only [validate, List.mem_append, mem_own, validateF_iff fs p n]
+    constructor
+    · rintro (⟨rfl, rfl⟩ | ⟨name, v, q, hm, rfl, hf⟩)
+      · exact .structOwn
+      · exact .structField hm hf
+    · intro h
+      cases h with
+      | structOwn => exact .inl ⟨rfl, rfl⟩
+      | structField hm hf => exact .inr ⟨_, _, _, hm, rfl, hf⟩
+  | .seq e vs, p, n => by
+    simp only [validate, List.mem_append, mem_own, validateL_iff vs 0 p n]
+    constructor
+    · rintro (⟨rfl, rfl⟩ | ⟨j, v, q, hm, rfl, hf⟩)
+      · exact .seqOwn
+      · rw [Nat.zero_add]; exact .seqElem hm hf
+    · intro h
+      cases h with
+      | seqOwn => exact .inl ⟨rfl, rfl⟩
+      | seqElem hm hf => exact .inr ⟨_, _, _, hm, by rw [Nat.zero_add], hf⟩
+  | .map e kvs, p, n => by
+    simp only [validate, List.mem_append, mem_own, validateKV_iff kvs p n]
+    constructor
+    · rintro (⟨rfl, rfl⟩ | ⟨k, kv, v, q, hm, rfl, hf | hf⟩)
+      · exact .mapOwn
+      · exact .mapKey hm hf
+      · exact .mapVal hm hf
+    · intro h
+      cases h with
+      | mapOwn => exact .inl ⟨rfl, rfl⟩
+      | mapKey hm hf => exact .inr ⟨_, _, _, _, hm, rfl, .inl hf⟩
+      | mapVal hm hf => exact .inr ⟨_, _, _, _, hm, rfl, .inr hf⟩
+theorem validateF_iff : ∀ (fs : List (String × Bool × VT)) (p : Path) (n : Nat),
+    (p, n) ∈ validateF fs ↔ ∃ name v q, (name, true, v) ∈ fs ∧ p = name :: q ∧ Fails v q n
+  | [], p, n => by simp [validateF]
+  | (name, exported, v) :: fs, p, n => by
+    simp only [validateF, List.mem_append, validateF_iff fs p n]
+    constructor
+    · rintro (h | ⟨nm, w, q, hm, rfl, hf⟩)
+      · cases exported with
+        | false => simp at h
+        | true =>
+          simp only [if_true, mem_pre] at h
+          obtain ⟨q, rfl, hq⟩ := h
+          exact ⟨name, v, q, List.mem_cons_self .., rfl, (validate_iff v q n).mp hq⟩
+      · exact ⟨nm, w, q, List.mem_cons_of_mem _ hm, rfl, hf⟩
+    · rintro ⟨nm, w, q, hm, rfl, hf⟩
+      cases hm with
+      | head => exact .inl (by simp only [if_true, mem_pre]; exact ⟨q, rfl, (validate_iff _ q n).mpr hf⟩)
+      | tail _ hm' => exact .inr ⟨nm, w, q, hm', rfl, hf⟩
+theorem validateL_iff : ∀ (vs : List VT) (i : Nat) (p : Path) (n : Nat),
+    (p, n) ∈ validateL i vs ↔ ∃ (j : Nat) (v : VT) (q : Path), vs[j]? = some v ∧ p = toString (i + j) :: q ∧ Fails v q n
+  | [], i, p, n => by simp [validateL]
+  | v :: vs, i, p, n => by
+    simp only [validateL, List.mem_append, mem_pre, validateL_iff vs (i + 1) p n]
+    constructor
+    · rintro (⟨q, rfl, hq⟩ | ⟨j, w, q, hm, rfl, hf⟩)
+      · exact ⟨0, v, q, rfl, rfl, (validate_iff v q n).mp hq⟩
+      · exact ⟨j + 1, w, q, by simpa using hm, by rw [Nat.add_assoc, Nat.add_comm 1 j], hf⟩
+    · rintro ⟨j, w, q, hm, rfl, hf⟩
+      cases j with
+      | zero =>
+        simp only [List.getElem?_cons_zero, Option.some.injEq] at hm
+        subst hm
+        exact .inl ⟨q, rfl, (validate_iff _ q n).mpr hf⟩
+      | succ j =>
+        exact .inr ⟨j, w, q, by simpa using hm, by rw [Nat.add_assoc, Nat.add_comm 1 j], hf⟩
+theorem validateKV_iff : ∀ (kvs : List (String × VT × VT)) (p : Path) (n : Nat),
+    (p, n) ∈ validateKV kvs ↔ ∃ k kv v q, (k, kv, v) ∈ kvs ∧ p = k :: q ∧ (Fails kv q n ∨ Fails v q n)
+  | [], p, n => by simp [validateKV]
+  | (k, kv, v) :: kvs, p, n => by
+    simp only [validateKV, List.mem_append, mem_pre, validateKV_iff kvs p n]
+    constructor
+    · rintro ((⟨q, rfl, hq⟩ | ⟨q, rfl, hq⟩) | ⟨k', kv', v', q, hm, rfl, hf⟩)
+      · exact ⟨k, kv, v, q, List.mem_cons_self .., rfl, .inl ((validate_iff kv q n).mp hq)⟩
+      · exact ⟨k, kv, v, q, List.mem_cons_self .., rfl, .inr ((validate_iff v q n).mp hq)⟩
+      · exact ⟨k', kv', v', q, List.mem_cons_of_mem _ hm, rfl, hf⟩
+    · rintro ⟨k', kv', v', q, hm, rfl, hf⟩
+      cases hm with
+      | head =>
+        rcases hf with hf | hf
+        · exact .inl (.inl ⟨q, rfl, (validate_iff _ q n).mpr hf⟩)
+        · exact .inl (.inr ⟨q, rfl, (validate_iff _ q n).mpr hf⟩)
+      | tail _ hm' => exact .inr ⟨k', kv', v', q, hm', rfl, hf⟩
+end
+
+/-- **Every validation rule of every nested value is evaluated**: the walk reports `(path, n)` exactly
+when the node at `path` — reached through exported fields, slice/array elements, map keys and
+values, pointers and interfaces, *whatever its ancestors' own `Validate()` returned* — fails with `n`. -/
+theorem C13_validate_complete (t : VT) (p : Path) (n : Nat) : (p, n) ∈ validate t ↔ Fails t p n :=
+  validate_iff t p n
+
+/-- non-vacuity: an invalid leaf below a valid struct, inside a slice below a *failing* map entry -/
+example : validate (.struct none [("a", true, .map (some 7) [("k", .leaf none, .seq none [.ptr (.struct none [("x", true, .leaf (some 9))])])])])
+    = [(["a"], 7), (["a", "k", "0", "x"], 9)] := by decide
+
+/-- what the walk does not reach: unexported fields (kept explicit) -/
+theorem C13_validate_skips_unexported (e : Option Nat) (name : String) (v : VT) :
+    validate (.struct e [(name, false, v)]) = own e := by
+  simp [validate, validateF]
+
+/-! ## (b) references, ambiguity, pipeline shape -/
+
+def RefsOk (c : Top) : Prop :=
+  ¬ (c.receivers = [] ∧ c.exporters = [] ∧ c.processors = [] ∧ c.connectors = [] ∧ c.extensions = []) ∧
+  c.receivers ≠ [] ∧ c.exporters ≠ [] ∧
+  (∀ conn ∈ c.connectors, conn ∉ c.exporters ∧ conn ∉ c.receivers) ∧
+  (∀ r ∈ c.svcExtensions, configured c.extensions r = true) ∧
+  (∀ p ∈ c.pipelines,
+    (∀ r ∈ p.2.recv, r ∈ c.receivers ∨ r ∈ c.connectors) ∧
+    (∀ r ∈ p.2.procs, configured c.processors r = true) ∧
+    (∀ r ∈ p.2.exps, r ∈ c.exporters ∨ r ∈ c.connectors))
+
+theorem connErr_none {c : Top} {conn : Id} : connErr c conn = none ↔ conn ∉ c.exporters ∧ conn ∉ c.receivers := by
+  unfold connErr
+  by_cases a : conn ∈ c.exporters <;> by_cases b : conn ∈ c.receivers <;> simp [a, b]
+
+theorem pipeRefErr_none {c : Top} {pid : Nat} {p : Pipe} : pipeRefErr c pid p = none ↔
+    (∀ r ∈ p.recv, r ∈ c.receivers ∨ r ∈ c.connectors) ∧ (∀ r ∈ p.procs, configured c.processors r = true) ∧
+    (∀ r ∈ p.exps, r ∈ c.exporters ∨ r ∈ c.connectors) := by
+  unfold pipeRefErr
+  cases h1 : p.recv.find? (fun r => !(c.receivers.contains r || c.connectors.contains r)) with
+  | some r =>
+    have := List.find?_some h1
+    have hm := List.mem_of_find?_eq_some h1
+    simp only [reduceCtorEq, false_iff]
+    intro ⟨h, _, _⟩
+    have := h r hm
+    simp_all
+  | none =>
+    cases h2 : p.procs.find? (fun r => !configured c.processors r) with
+    | some r =>
+      have := List.find?_some h2
+      have hm := List.mem_of_find?_eq_some h2
+      simp only [reduceCtorEq, false_iff]
+      intro ⟨_, h, _⟩
+      have := h r hm
+      simp_all
+    | none =>
+      cases h3 : p.exps.find? (fun r => !(c.exporters.contains r || c.connectors.contains r)) with
+      | some r =>
+        have := List.find?_some h3
+        have hm := List.mem_of_find?_eq_some h3
+        simp only [reduceCtorEq, false_iff]
+        intro ⟨_, _, h⟩
+        have := h r hm
+        simp_all
+      | none =>
+        simp only [true_iff]
+        rw [List.find?_eq_none] at h1 h2 h3
+        refine ⟨fun r hr => ?_, fun r hr => ?_, fun r hr => ?_⟩
+        · have := h1 r hr
+          by_cases hx : r ∈ c.receivers
+          · exact .inl hx
+          · right; simp_all
+        · have := h2 r hr; simp_all
+        · have := h3 r hr
+          by_cases hx : r ∈ c.exporters
+          · exact .inl hx
+          · right; simp_all
+
+/-- **References and ambiguity**: `Config.Validate` returns nil exactly for configurations with at least
+one receiver and exporter, no connector id shared with a receiver or exporter, no service extension
+and no pipeline receiver/processor/exporter that is not defined. -/
+theorem C13_refs (c : Top) : rootErrs c = [] ↔ RefsOk c := by
+  unfold rootErrs RefsOk
+  by_cases h0 : (c.receivers.isEmpty && c.exporters.isEmpty && c.processors.isEmpty && c.connectors.isEmpty && c.extensions.isEmpty) = true
+  · simp only [h0, if_true, reduceCtorEq, false_iff]
+    simp only [Bool.and_eq_true, List.isEmpty_iff] at h0
+    intro h; exact h.1 ⟨h0.1.1.1.1, h0.1.1.1.2, h0.1.1.2, h0.1.2, h0.2⟩
+  · have h0' : ¬ (c.receivers = [] ∧ c.exporters = [] ∧ c.processors = [] ∧ c.connectors = [] ∧ c.extensions = []) := by
+      intro ⟨a, b, d, e, f⟩; simp [a, b, d, e, f] at h0
+    simp only [h0, Bool.false_eq_true, if_false]
+    by_cases h1 : c.receivers.isEmpty = true
+    · simp only [h1, if_true, reduceCtorEq, false_iff]
+      intro h; exact h.2.1 (List.isEmpty_iff.mp h1)
+    · have h1' : c.receivers ≠ [] := fun h => h1 (by simp [h])
+      simp only [h1, Bool.false_eq_true, if_false]
+      by_cases h2 : c.exporters.isEmpty = true
+      · simp only [h2, if_true, reduceCtorEq, false_iff]
+        intro h; exact h.2.2.1 (List.isEmpty_iff.mp h2)
+      · have h2' : c.exporters ≠ [] := fun h => h2 (by simp [h])
+        simp only [h2, Bool.false_eq_true, if_false]
+        cases hc : c.connectors.filterMap (connErr c) with
+        | cons e es =>
+          simp only [reduceCtorEq, false_iff]
+          intro ⟨_, _, _, h, _⟩
+          have : e ∈ c.connectors.filterMap (connErr c) := by rw [hc]; exact List.mem_cons_self ..
+          obtain ⟨conn, hm, he⟩ := List.mem_filterMap.mp this
+          have := connErr_none.mpr (h conn hm)
+          simp [this] at he
+        | nil =>
+          have hconn : ∀ conn ∈ c.connectors, conn ∉ c.exporters ∧ conn ∉ c.receivers := by
+            intro conn hm
+            apply connErr_none.mp
+            cases hce : connErr c conn with
+            | none => rfl
+            | some e =>
+              have : e ∈ c.connectors.filterMap (connErr c) := List.mem_filterMap.mpr ⟨conn, hm, hce⟩
+              rw [hc] at this; simp at this
+          simp only []
+          cases he : c.svcExtensions.find? (fun r => !configured c.extensions r) with
+          | some r =>
+            have hp := List.find?_some he
+            have hm := List.mem_of_find?_eq_some he
+            simp only [reduceCtorEq, false_iff]
+            intro ⟨_, _, _, _, h, _⟩
+            have := h r hm
+            simp_all
+          | none =>
+            rw [List.find?_eq_none] at he
+            have hext : ∀ r ∈ c.svcExtensions, configured c.extensions r = true := by
+              intro r hr; have := he r hr; simp_all
+            simp only [List.filterMap_eq_nil_iff]
+            constructor
+            · intro h
+              exact ⟨h0', h1', h2', hconn, hext, fun p hp => pipeRefErr_none.mp (h p hp)⟩
+            · intro ⟨_, _, _, _, _, h⟩ p hp
+              exact pipeRefErr_none.mpr (h p hp)
+
+/-- non-vacuity: a configuration that passes, and one with a dangling exporter that does not -/
+example : rootErrs { receivers := [1], exporters := [2], connectors := [3], processors := [(4, true)], extensions := [(5, true)],
+                     svcExtensions := [5], pipelines := [(0, ⟨[1], [4], [3]⟩), (1, ⟨[3], [], [2]⟩)] } = [] := by decide
+example : rootErrs { receivers := [1], exporters := [2], connectors := [], processors := [], extensions := [],
+                     svcExtensions := [], pipelines := [(0, ⟨[1], [], [9]⟩)] } = [.danglingExporter 0 9] := by decide
+
+/-- every reported reference error names an entry that is really offending -/
+theorem C13_refs_names_entry (c : Top) (pid : Nat) (ref : Id) :
+    (RErr.danglingReceiver pid ref ∈ rootErrs c → ∃ p, (pid, p) ∈ c.pipelines ∧ ref ∈ p.recv ∧ ref ∉ c.receivers ∧ ref ∉ c.connectors) ∧
+    (RErr.danglingExporter pid ref ∈ rootErrs c → ∃ p, (pid, p) ∈ c.pipelines ∧ ref ∈ p.exps ∧ ref ∉ c.exporters ∧ ref ∉ c.connectors) ∧
+    (RErr.danglingProcessor pid ref ∈ rootErrs c → ∃ p, (pid, p) ∈ c.pipelines ∧ ref ∈ p.procs ∧ configured c.processors ref = false) := by
+  have key : ∀ e, e ∈ rootErrs c → (∀ a b, e = RErr.danglingReceiver a b ∨ e = RErr.danglingExporter a b ∨ e = RErr.danglingProcessor a b →
+      ∃ p, (a, p) ∈ c.pipelines ∧ pipeRefErr c a p = some e) := by
+    intro e he a b hk
+    unfold rootErrs at he
+    split at he
+    · simp at he; rcases hk with h | h | h <;> simp [h] at he
+    · split at he
+      · simp at he; rcases hk with h | h | h <;> simp [h] at he
+      · split at he
+        · simp at he; rcases hk with h | h | h <;> simp [h] at he
+        · split at he
+          · rename_i e' es hce
+            have : e ∈ c.connectors.filterMap (connErr c) := by rw [hce]; exact he
+            obtain ⟨conn, _, hcc⟩ := List.mem_filterMap.mp this
+            unfold connErr at hcc
+            split at hcc
+            · simp at hcc; rcases hk with h | h | h <;> simp [h] at hcc
+            · split at hcc
+              · simp at hcc; rcases hk with h | h | h <;> simp [h] at hcc
+              · simp at hcc
+          · split at he
+            · simp at he; rcases hk with h | h | h <;> simp [h] at he
+            · obtain ⟨⟨a', p⟩, hm, hp⟩ := List.mem_filterMap.mp he
+              simp only at hp
+              have ha : a' = a := by
+                unfold pipeRefErr at hp
+                split at hp
+                · simp at hp; rcases hk with h | h | h <;> simp [h] at hp <;> exact hp.1
+                · split at hp
+                  · simp at hp; rcases hk with h | h | h <;> simp [h] at hp <;> exact hp.1
+                  · split at hp
+                    · simp at hp; rcases hk with h | h | h <;> simp [h] at hp <;> exact hp.1
+                    · simp at hp
+              subst ha
+              exact ⟨p, hm, hp⟩
+  refine ⟨fun h => ?_, fun h => ?_, fun h => ?_⟩
+  · obtain ⟨p, hm, hp⟩ := key _ h pid ref (.inl rfl)
+    refine ⟨p, hm, ?_⟩
+    unfold pipeRefErr at hp
+    split at hp
+    · rename_i r hf
+      simp only [Option.some.injEq, RErr.danglingReceiver.injEq, true_and] at hp
+      subst hp
+      have := List.find?_some hf
+      exact ⟨List.mem_of_find?_eq_some hf, by simp_all, by simp_all⟩
+    · split at hp
+      · simp at hp
+      · split at hp <;> simp at hp
+  · obtain ⟨p, hm, hp⟩ := key _ h pid ref (.inr (.inl rfl))
+    refine ⟨p, hm, ?_⟩
+    unfold pipeRefErr at hp
+    split at hp
+    · simp at hp
+    · split at hp
+      · simp at hp
+      · split at hp
+        · rename_i r hf
+          simp only [Option.some.injEq, RErr.danglingExporter.injEq, true_and] at hp
+          subst hp
+          have := List.find?_some hf
+          exact ⟨List.mem_of_find?_eq_some hf, by simp_all, by simp_all⟩
+        · simp at hp
+  · obtain ⟨p, hm, hp⟩ := key _ h pid ref (.inr (.inr rfl))
+    refine ⟨p, hm, ?_⟩
+    unfold pipeRefErr at hp
+    split at hp
+    · simp at hp
+    · split at hp
+      · rename_i r hf
+        simp only [Option.some.injEq, RErr.danglingProcessor.injEq, true_and] at hp
+        subst hp
+        have := List.find?_some hf
+        exact ⟨List.mem_of_find?_eq_some hf, by simp_all⟩
+      · split at hp <;> simp at hp
+
+theorem firstDup_none (seen xs : List Id) : firstDup seen xs = none ↔ xs.Nodup ∧ ∀ x ∈ xs, x ∉ seen := by
+  induction xs generalizing seen with
+  | nil => simp [firstDup]
+  | cons x xs ih =>
+    simp only [firstDup]
+    by_cases h : seen.contains x = true
+    · simp only [h, if_true, reduceCtorEq, false_iff]
+      intro ⟨_, h2⟩
+      exact h2 x (List.mem_cons_self ..) (by simpa using h)
+    · simp only [h, Bool.false_eq_true, if_false, ih, List.nodup_cons, List.mem_cons]
+      have hx : x ∉ seen := by simpa using h
+      constructor
+      · rintro ⟨hn, hs⟩
+        refine ⟨⟨fun hm => (hs x hm) (.inl rfl), hn⟩, ?_⟩
+        rintro y (rfl | hy)
+        · exact hx
+        · intro hys; exact hs y hy (.inr hys)
+      · rintro ⟨⟨hnx, hn⟩, hs⟩
+        refine ⟨hn, fun y hy => ?_⟩
+        rintro (rfl | hys)
+        · exact hnx hy
+        · exact hs y (.inr hy) hys
+
+/-- **Pipeline shape**: no shape error exactly when there is a pipeline and every pipeline has at least
+one receiver, one exporter, and no processor listed twice. -/
+theorem C13_shape (c : Top) : shapeErrs c = [] ↔
+    c.pipelines ≠ [] ∧ ∀ p ∈ c.pipelines, p.2.recv ≠ [] ∧ p.2.exps ≠ [] ∧ p.2.procs.Nodup := by
+  unfold shapeErrs
+  simp only [List.append_eq_nil_iff, List.filterMap_eq_nil_iff]
+  have hp : ∀ (pid : Nat) (p : Pipe), pipeErr pid p = none ↔ p.recv ≠ [] ∧ p.exps ≠ [] ∧ p.procs.Nodup := by
+    intro pid p
+    unfold pipeErr
+    by_cases h1 : p.recv.isEmpty = true
+    · simp only [h1, if_true, reduceCtorEq, false_iff]; intro h; exact h.1 (List.isEmpty_iff.mp h1)
+    · by_cases h2 : p.exps.isEmpty = true
+      · simp only [h1, h2, Bool.false_eq_true, if_false, if_true, reduceCtorEq, false_iff]
+        intro h; exact h.2.1 (List.isEmpty_iff.mp h2)
+      · simp only [h1, h2, Bool.false_eq_true, if_false, Option.map_eq_none_iff, firstDup_none]
+        have a : p.recv ≠ [] := fun h => h1 (by simp [h])
+        have b : p.exps ≠ [] := fun h => h2 (by simp [h])
+        simp [a, b]
+  constructor
+  · rintro ⟨h1, h2⟩
+    refine ⟨fun h => by simp [h] at h1, fun p hm => (hp p.1 p.2).mp (h2 p hm)⟩
+  · rintro ⟨h1, h2⟩
+    refine ⟨by simp [h1], fun p hm => (hp p.1 p.2).mpr (h2 p hm)⟩
+
+example : shapeErrs { receivers := [], exporters := [], connectors := [], processors := [], extensions := [], svcExtensions := [],
+                      pipelines := [(0, ⟨[1], [4, 5, 4], [2]⟩), (1, ⟨[], [], [2]⟩)] } = [.dupProcessor 0 4, .pipeNoReceivers 1] := by decide
+
+/-! ## (c) strict decode -/
+
+/-- the value contains, at some depth, a key that the schema position it sits at does not accept -/
+inductive Bad : Schema → Val → Prop
+  | here {fs kvs k x} : (k, x) ∈ kvs → k ∉ structKeys fs → Bad (.struct fs) (.map kvs)
+  | field {fs kvs k s v} : (k, false, s) ∈ fs → lookupVal kvs k = some v → Bad s v → Bad (.struct fs) (.map kvs)
+  | ptr {s v} : Bad s v → Bad (.ptr s) v
+  | elem {s vs v} : v ∈ vs → Bad s v → Bad (.slice s) (.list vs)
+  | mapVal {s kvs k v} : (k, v) ∈ kvs → Bad s v → Bad (.map s) (.map kvs)
+
+theorem decodeFields_false {fs : List (String × Bool × Schema)} {kvs : List (String × Val)} {k : String} {s : Schema} {v : Val}
+    (hm : (k, false, s) ∈ fs) (hl : lookupVal kvs k = some v) (hd : decodeOk s v = false) : decodeFields fs kvs = false := by
+  induction fs with
+  | nil => cases hm
+  | cons f fs ih =>
+    obtain ⟨k', sq, s'⟩ := f
+    cases hm with
+    | head => unfold decodeFields; simp [hl, hd]
+    | tail _ hm' => unfold decodeFields; simp [ih hm']
+
+theorem decodeAll_false {s : Schema} {vs : List Val} {v : Val} (hm : v ∈ vs) (hd : decodeOk s v = false) : decodeAll s vs = false := by
+  induction vs with
+  | nil => cases hm
+  | cons w ws ih =>
+    cases hm with
+    | head => simp [decodeAll, hd]
+    | tail _ hm' => simp [decodeAll, ih hm']
+
+theorem decodeVals_false {s : Schema} {kvs : List (String × Val)} {k : String} {v : Val} (hm : (k, v) ∈ kvs) (hd : decodeOk s v = false) :
+    decodeVals s kvs = false := by
+  induction kvs with
+  | nil => cases hm
+  | cons w ws ih =>
+    obtain ⟨k', v'⟩ := w
+    cases hm with
+    | head => simp [decodeVals, hd]
+    | tail _ hm' => simp [decodeVals, ih hm']
+
+/-- **Strictness**: a key that no field accepts — in the component's own map or at any depth below it,
+through fields, pointers used as optionals, slice elements and map values — makes the strict
+decode fail instead of being ignored.  (Keys below a *squashed* struct are judged at the level of
+the embedding struct: `structKeys` flattens them.) -/
+theorem C13_strict {S : Schema} {v : Val} (h : Bad S v) : decodeOk S v = false := by
+  induction h with
+  | here hm hk =>
+    rename_i fs kvs k x
+    simp only [decodeOk, Bool.and_eq_false_iff]
+    left
+    rw [List.all_eq_false]
+    exact ⟨(k, x), hm, by simpa using hk⟩
+  | field hm hl _ ih =>
+    simp only [decodeOk, Bool.and_eq_false_iff]
+    right
+    exact decodeFields_false hm hl ih
+  | ptr _ ih => simp only [decodeOk, ih]
+  | elem hm _ ih => simp only [decodeOk]; exact decodeAll_false hm ih
+  | mapVal hm _ ih => simp only [decodeOk]; exact decodeVals_false hm ih
+
+/-- non-vacuity: `sending_queue: {queue_size: 1, bogus: 2}` inside an exporter with a squashed client config -/
+example : Bad (.struct [("timeout", false, .scalar), ("", true, .struct [("endpoint", false, .scalar)]),
+                        ("sending_queue", false, .ptr (.struct [("queue_size", false, .scalar)]))])
+              (.map [("endpoint", .scalar 1), ("sending_queue", .map [("queue_size", .scalar 1), ("bogus", .scalar 2)])]) :=
+  .field (k := "sending_queue") (s := .ptr (.struct [("queue_size", false, .scalar)]))
+    (v := .map [("queue_size", .scalar 1), ("bogus", .scalar 2)]) (by simp) (by simp [lookupVal])
+    (.ptr (.here (fs := [("queue_size", false, .scalar)]) (kvs := [("queue_size", .scalar 1), ("bogus", .scalar 2)])
+      (k := "bogus") (x := .scalar 2) (by simp) (by simp [structKeys])))
+
+example : decodeOk (.struct [("timeout", false, .scalar), ("", true, .struct [("endpoint", false, .scalar)])])
+            (.map [("endpoint", .scalar 1), ("timeout", .scalar 3)]) = true := by
+  simp [decodeOk, decodeFields, structKeys, squashKeys, lookupVal]
+
+/-! The faithfulness clause (typed and effective configuration reflect exactly the written keys,
+siblings untouched) quantifies over every field of every built-in configuration including the ones
+with custom `Unmarshal`/`MarshalText`; it is *not* a theorem of this file (partial).  The
+differential harness checks it per written key on the real structs (`faithful`, `effective`,
+`sibling` oracles). -/
+
 end OtelVerif.C13
